@@ -10,6 +10,7 @@ import scratch, kani_group, registry, native, mcheck, mir, smt, models
 from mir import SV, Agg, Enum, Opaque, OpenAgg
 
 U = Fraction(1, 2 ** 53)
+PANIC_ONLY = False      # set by the C03 check: keep only the no-panic obligations
 MAXV = 10 ** 9
 MINV = Fraction(1, 10 ** 9)
 
@@ -104,10 +105,6 @@ def build(run, scr):
     mods[r"^scale::<impl Recipe<Servings, ScalableValue>>::scale$"] = m_recipe_scale
     mods[r"^<Vec<u32> as Deref>::deref$"] = models.m_identity
 
-    def m_first(it, args, callee):
-        v = args[0]   # Agg vec {len, first}
-        return models.mk_option(it, SV("isize", "(ite (> %s 0) 1 0)" % v.fields["len"].expr), v.fields["first"])
-    mods[r"^core::slice::<impl \[u32\]>::first$"] = m_first
     # diagnostics construction in RecipeCollector::value: opaque, but a pushed warning is an observable event
     for pat in (r"^Located::<quantity::Value>::span$", r"^<span::Span as ToOwned>::to_owned$", r"^<span::Span as Into<span::Span>>::into$",
                 r"^<&str as Into<Cow<'_, str>>>::into$", r"^SourceDiag::warning::<&str>$", r"^SourceDiag::add_hint::<&str>$"):
@@ -267,6 +264,8 @@ def m_part(run, scr, nat):
     items = []   # (name, pc, negated-post, expect)
 
     def ob(name, pc, post, expect="unsat"):
+        if PANIC_ONLY and "panic" not in name:
+            return
         items.append((name, mcheck.pc_assert(pc), post, expect))
 
     is_text = "(= %s %d)" % (V.discr.expr, V.idx["Text"])
@@ -433,8 +432,10 @@ def m_part(run, scr, nat):
     n = sem.sym_int("n_target", "u32", 0, 10 ** 6)
     ln = sem.sym_int("serv_len", "usize", 0, 8)
     first = sem.sym_int("serv_first", "u32", 1, 10 ** 6)
+    last = sem.sym_int("serv_last", "u32", 1, 10 ** 6)
+    sem.decls.append("(assert (=> (<= serv_len 1) (= serv_first serv_last)))")
     has_serv = sem.sym_int("has_servings", "isize", 0, 1)
-    vec = Agg("vec", {"len": SV("usize", ln), "first": SV("u32", first)})
+    vec = Agg("vec", {"len": SV("usize", ln), "first": SV("u32", first), "last": SV("u32", last)})
     servings = Agg("Servings", {"0": models.mk_option(it, SV("isize", has_serv), vec)})
     recipe = OpenAgg("Recipe", {str(rf.index("data")): servings})
     c.recipe_scale_calls.clear()
@@ -457,8 +458,30 @@ def m_part(run, scr, nat):
     if k == 0:
         run.inconclusive.append("scale_to_servings: no path reaches ScalableRecipe::scale")
 
+    validate = []
+    if not PANIC_ONLY:
+        # translator validation vectors for linear_scale: (factor, number) -> the encoding's Ok(Number) path must predict the real result
+        lin_outs = [o for o in it.run(c.f_linear, [V, SV("f64", f)]) if o.kind == "return" and "Ok" in o.value.variants
+                    and "Number" in o.value.variants["Ok"].fields["0"].variants]
+        for (ff, reg) in ((2.5, 3.0), (0.5, 300.0), (3.0, 0.1)):
+            for o in lin_outs:
+                x = o.value.variants["Ok"].fields["0"].variants["Number"].fields["0"].variants["Regular"].fields["0"].expr
+                validate.append((ff, reg, o.pc, x))
     D = list(sem.decls)
-    batch = mcheck.Batch(c.ms, "c08", D, timeout_s=120 if run.tier == "quick" else 600)
+    for (ff, reg, pc, x) in validate:
+        fix = ["(= f %s)" % smt.rat(Fraction(ff)), "(= x_v_tag %d)" % V.idx["Number"], "(= x_v_n_tag 0)", "(= x_v_n_reg %s)" % smt.rat(Fraction(reg))]
+        v_, m_, dt, errs = mcheck.solve_file(c.ms.primary, D, mcheck.pc_assert(pc) + fix, [x], 30, os.path.join(run.logdir, "validate.smt2"))
+        if v_ != "sat":
+            continue
+        real = nat.call("linear_scale", repr(ff), "N", "R", repr(reg))
+        run.traces_validated += 1
+        try:
+            ok = abs(Fraction(m_[x]) - Fraction(real["n"]["v"])) <= 4 * U * abs(Fraction(real["n"]["v"]))
+        except Exception:
+            ok = False
+        if not ok:
+            run.inconclusive.append("translator validation linear_scale(%r * %r): encoding %s vs real %s" % (reg, ff, m_.get(x), real))
+    batch = mcheck.Batch(c.ms, "c08", D, timeout_s=120 if run.tier == "quick" else 600, deltas=sem.deltas)
     also = ("z3",) if run.tier == "thorough" else ()
     INPUTS = ["f", "x_kind", "x_v_tag", "x_v_n_tag", "x_v_n_reg", "x_v_n_whole", "x_v_n_num", "x_v_n_den", "x_v_n_err",
               "x_v_s_tag", "x_v_s_reg", "x_v_e_tag", "x_v_e_reg", "has_quantity", "lock", "is_ingredient", "n_target", "serv_first",
@@ -471,8 +494,9 @@ def m_part(run, scr, nat):
     for name, pcs, post, expect in items:
         batch.add(name, pcs + ([post] if post != "true" else []), expect, INPUTS if expect == "unsat" else (), on_sat(name), also)
     batch.run()
-    run.samples.append({"engine": "mir-smt", "obligation": items[0][0], "negated_post": items[0][2][:300]})
-    run.samples.append({"engine": "mir-smt", "obligation": items[-1][0], "negated_post": items[-1][2][:300]})
+    if items:
+        run.samples.append({"engine": "mir-smt", "obligation": items[0][0], "negated_post": items[0][2][:300]})
+        run.samples.append({"engine": "mir-smt", "obligation": items[-1][0], "negated_post": items[-1][2][:300]})
     c.ms.close()
 
 
@@ -529,6 +553,12 @@ def check(run):
             run.inconclusive.append("encoder: %s" % e)
     if only in ("", "K"):
         kani_group.run_group(run, scr, registry.select("C08", run.tier))
+    # validation: the solver's verdict and the real code must agree on a concrete parsed recipe (public API)
+    for args in (("2.5", "3.0", "1.0", "2.0"), ("0.5", "300.0", "1.5", "2.5")):
+        r = nat.call("scale_scenario", *args)
+        run.traces_validated += 1
+        if ("error" in r or r.get("problems")) and not run.violations:
+            run.inconclusive.append("the solver found no violation but a concrete parsed recipe scales wrongly: %s" % str(r)[:300])
     run.not_covered += [
         "ScalableRecipe::scale's iterator plumbing (map/unzip over the component vectors) is decided only through the per-component functions it calls",
         "the fit step after scaling: amount preservation of fit/convert is C09's claim (composition), fraction fitting is C12's",
